@@ -172,6 +172,11 @@ class Scene:
         s.F = gen.rand_rot(rng, str(rng.choice(["haar", "ident", "perm", "axis"], p=[.5, .2, .15, .15])))
         s.o = gen.center(rng, far_ok=True) if rng.random() < 0.7 else np.zeros(3)
         s.h = _size(rng) * 0.5      # half lattice step
+        # 15% of the scenes live at the floor of the size domain (every feature 0.2 .. 0.5): absolute thresholds
+        # and iteration tolerances of the functions are weakest there
+        s.small = bool(rng.random() < 0.15)
+        if s.small:
+            s.h = float(rng.uniform(0.1, 0.2))
 
     def direction(s):
         rng = s.rng
@@ -210,6 +215,8 @@ class Scene:
 
     def length(s):
         rng = s.rng
+        if s.small:
+            return float(rng.choice([2 * s.h, rng.uniform(0.2, 0.5)])) if s.structured else float(rng.uniform(0.2, 0.5))
         if s.structured and rng.random() < 0.8:
             return float(max(SMIN, min(SMAX, 2 * s.h * float(rng.integers(1, 5)))))
         return _size(rng)
@@ -264,7 +271,7 @@ def make(kind, sc):
         V = [c + sx * 0.5 * l[0] * axes[0] + sy * 0.5 * l[1] * axes[1] for sx in (-1, 1) for sy in (-1, 1)]
         return Prim(kind, (f(c), f(axes), f(l)), hull(V), [R[:, 2], axes[0], axes[1]])
     if kind in ("circle", "disk"):
-        c = sc.point(); n = sc.direction(); r = sc.length() * 0.5 if sc.structured else _size(rng)
+        c = sc.point(); n = sc.direction(); r = sc.length() * 0.5 if (sc.structured or sc.small) else _size(rng)
         r = float(max(SMIN, r))
         orc = PCircle(c, r, n) if kind == "circle" else O.ODisk(c, r, n)
         return Prim(kind, (f(c), r, f(n)), orc, [n])
@@ -274,6 +281,8 @@ def make(kind, sc):
         return Prim(kind, (f(T), f(size)), O.OBox(T, size), [R[:, i] for i in range(3)])
     if kind in ("ellipsoid", "ellipsoid_surface"):
         R = sc.frame(); c = sc.point(); radii = np.array([sc.length(), sc.length(), sc.length()]) * 0.5
+        if sc.small:
+            radii = rng.uniform(0.2, 0.45, size=3)
         radii = np.maximum(radii, SMIN)
         T = O.pose(R, c)
         orc = O.OEllipsoid(T, radii) if kind == "ellipsoid" else PEllipsoidSurface(T, radii)
